@@ -92,7 +92,8 @@ def run(tier):
                     c = callee(n)
                     if c:
                         callers.setdefault(c, set()).add(fname)
-        module = {'lltd_state_for_iface'}
+        from .frame_common import state_lookup_name
+        module = {state_lookup_name(prog)}
         grew = True
         while grew:
             grew = False
